@@ -690,6 +690,13 @@ class Engine:
                 return v
             if isinstance(v, Agg) and 0 in v.f and isinstance(v.f[0], Ptr):   # Box/NonNull-like wrappers
                 return v.f[0]
+            if isinstance(v, Native) and v.kind in ("sstr", "str", "lvec", "strvec"):
+                # owned and borrowed strings / slices share one value representation (`&str`, `String`, `Box<str>`): a reborrow
+                # `&*s` designates the value itself (read-only cell)
+                self._nderef = getattr(self, "_nderef", 0) + 1
+                name = f"deref#{self._nderef}"
+                ctx.statics[name] = v
+                return Ptr(("static", name))
             raise Unsupported(f"deref of non-pointer {v} in {f.body.name}")
         if k == "field":
             b = self.eval_place(ctx, f, p[1])
@@ -1455,7 +1462,7 @@ class Engine:
         self_ty = None
         if args and isinstance(args[0], Ptr) and args[0].root[0] == "obj" and isinstance(args[0].root[1], int):
             self_ty = base_name(self.objs.get(args[0].root[1], ""))
-        b = self.prog.resolve(path, self_ty)
+        b = self.prog.resolve(path, self_ty, getattr(f.body, "crate", None))
         if b is not None and not any(p.search(norm) for p in self.opaque):
             self.push_frame(ctx, b, args, (dest, ret_bb))
             return None
@@ -1494,6 +1501,9 @@ class Engine:
         if isinstance(callee, Native) and callable(callee.data):
             r = callee.data(self, ctx, f, args)
             return self.finish_call(ctx, f, r, dest, ret_bb)
+        if hasattr(callee, "blocks"):            # a MIR body chosen by a model (value-based dispatch of a trait call)
+            self.push_frame(ctx, callee, args, (dest, ret_bb))
+            return None
         if isinstance(callee, FnItem):
             b = self.prog.resolve(callee.path)
             if b is not None:
